@@ -31,6 +31,7 @@ func c03Config(reg3 bool) world.Config {
 		Coins: sdk.NewCoins(sdk.NewInt64Coin("ujkl", 40_000_000), sdk.NewInt64Coin("uatom", 7_000_003))}
 	return world.Config{
 		Accounts: []string{"U", "U2", "P1", "P2", "P3"},
+		Balances: map[string]sdk.Coins{"U": world.DefaultBalance().Add(sdk.NewInt64Coin("utiny", 1000))},
 		Storage: func(p *storagetypes.Params) {
 			p.ChunkSize, p.ProofWindow, p.CheckWindow = 4, 3, 2
 			p.CollateralPrice = 1000
@@ -151,8 +152,8 @@ func c03RunOpt(env world.Env, files []c03File, extraGauge bool, reg3 bool, raise
 	return c03RunOpt2(env, files, extraGauge, reg3, raiseWindow, false)
 }
 
-// atomGauge: a further gauge holding 8 uatom over 8 days, so that a reward block releases a second denomination of
-// which a prover's share may well truncate to zero while its ujkl share is positive.
+// atomGauge: a further gauge holding 8 utiny over 8 days, so that a reward block releases a third denomination of
+// which a prover's share truncates to zero while its ujkl and uatom shares are positive.
 func c03RunOpt2(env world.Env, files []c03File, extraGauge bool, reg3 bool, raiseWindow bool, atomGauge bool) mc.CaseResult {
 	w := env.W()
 	cr := mc.CaseResult{Class: "reward-block"}
@@ -171,7 +172,7 @@ func c03RunOpt2(env world.Env, files []c03File, extraGauge bool, reg3 bool, rais
 	if atomGauge {
 		env.Mutate(func(ctx sdk.Context) {
 			k := w.App.StorageKeeper
-			coins := sdk.NewCoins(sdk.NewInt64Coin("uatom", 8))
+			coins := sdk.NewCoins(sdk.NewInt64Coin("utiny", 8))
 			pg := k.NewGauge(ctx, coins, ctx.BlockTime().Add(8*day))
 			acc, err := storagetypes.GetGaugeAccount(pg)
 			if err != nil {
@@ -268,7 +269,7 @@ func c03RunOpt2(env world.Env, files []c03File, extraGauge bool, reg3 bool, rais
 	}
 	after := w.Balances(ctx)
 	d := world.BalDiff(before, after)
-	released := map[string]sdk.Int{"ujkl": sdk.ZeroInt(), "uatom": sdk.ZeroInt()}
+	released := map[string]sdk.Int{"ujkl": sdk.ZeroInt(), "uatom": sdk.ZeroInt(), "utiny": sdk.ZeroInt()}
 	for a := range gaugeAccs {
 		for dn, v := range d[a] {
 			released[dn] = released[dn].Sub(v)
@@ -321,7 +322,7 @@ func c03RunOpt2(env world.Env, files []c03File, extraGauge bool, reg3 bool, rais
 			return false, "D=0"
 		}
 		for _, p := range c03Provers {
-			for _, dn := range []string{"ujkl", "uatom"} {
+			for _, dn := range []string{"ujkl", "uatom", "utiny"} {
 				got := deltaOf(d, w.A(p).Bech, dn)
 				want := weight[p].ToDec().QuoInt(D).MulInt(released[dn]).TruncateInt()
 				diff := got.Sub(want)
@@ -340,7 +341,7 @@ func c03RunOpt2(env world.Env, files []c03File, extraGauge bool, reg3 bool, rais
 			vs = append(vs, viol("size-weighted-share-once", "payout-mismatch", "lists %s: with D=listed bytes: %s; with D=credited bytes: %s; released %s ujkl %s uatom", pat, why1, why2, released["ujkl"], released["uatom"]))
 		}
 	}
-	for _, dn := range []string{"ujkl", "uatom"} {
+	for _, dn := range []string{"ujkl", "uatom", "utiny"} {
 		paid := sdk.ZeroInt()
 		for _, p := range c03Provers {
 			v := deltaOf(d, w.A(p).Bech, dn)
